@@ -100,6 +100,10 @@ class OkImplies:
             return "call:%s(%s)" % (short(callee_name(d)), ",".join(self.desc(body, a, depth - 1) for a in d["a"][:3]))
         rv = d["rv"]
         r = rv["r"]
+        if r == "use" and not p["p"] and body.local_name(l) and "k" in rv["o"] and any(
+                st["rv"]["r"] == "ref" and st["rv"].get("mut") and st["rv"]["p"]["l"] == l and not st["rv"]["p"]["p"] for bl in body.blocks for st in bl["s"]):
+            # a named variable that is only initialised here and later written through `&mut`: it is that variable, not its initial value
+            return "var:%s" % body.local_name(l)
         if r in ("use", "cast"):
             return self.desc(body, rv["o"], depth - 1)
         if r == "ref":
